@@ -1104,6 +1104,11 @@ pub enum Shape {
     UnwrapOr,
     /// `fn(bool, A, B) -> T` for `T = Result<A, B>` / `Verdict<A, B>`
     Build,
+    /// `fn(T, T, T) -> List<T>`: the list is made by the script (its element stride comes
+    /// from the script's own layout computation) and read by Rust
+    ListOf3,
+    /// `fn(T, T) -> Option<T>`: the script makes a list, takes an element out again
+    ListGet,
 }
 
 pub struct HP<T: Term>(TypedFunc<NoCtx, fn(T)>);
@@ -1167,6 +1172,35 @@ impl<T: Term> Handle for HWrap<T> {
     }
 }
 
+pub struct HList3<T: Term>(TypedFunc<NoCtx, fn(T, T, T) -> List<T>>);
+impl<T: Term> Handle for HList3<T> {
+    fn call(&self, k: usize, m: &mut Mon, route: &str, hostev: &[&'static str]) {
+        m.begin(k);
+        let want: List<T> = List::new();
+        for j in 0..3 {
+            want.push(value::<T>(m.seed, k + j * ALT));
+        }
+        let r = self.0.call(value::<T>(m.seed, k), value::<T>(m.seed, k + ALT), value::<T>(m.seed, k + 2 * ALT));
+        m.compare(route, k, &want, &r);
+        drop(r);
+        drop(want);
+        m.finish(route, k, hostev);
+    }
+}
+
+pub struct HListGet<T: Term>(TypedFunc<NoCtx, fn(T, T) -> Option<T>>);
+impl<T: Term> Handle for HListGet<T> {
+    fn call(&self, k: usize, m: &mut Mon, route: &str, hostev: &[&'static str]) {
+        m.begin(k);
+        let want = Some(value::<T>(m.seed, k + ALT));
+        let r = self.0.call(value::<T>(m.seed, k), value::<T>(m.seed, k + ALT));
+        m.compare(route, k, &want, &r);
+        drop(r);
+        drop(want);
+        m.finish(route, k, hostev);
+    }
+}
+
 pub struct HNone<T: Term>(TypedFunc<NoCtx, fn() -> Option<T>>);
 impl<T: Term> Handle for HNone<T> {
     fn call(&self, k: usize, m: &mut Mon, route: &str, hostev: &[&'static str]) {
@@ -1214,6 +1248,8 @@ fn get<T: Term>(pkg: &mut Package<NoCtx>, name: &str, shape: Shape) -> Option<Go
         Shape::Pos(1) => pos!(pkg, name, T, (T, u8, f64, u64, f32, bool, i16), |x, fl| (x, fl.0, fl.1, fl.2, fl.3, fl.4, fl.5)),
         Shape::Pos(7) => pos!(pkg, name, T, (u8, f64, u64, f32, bool, i16, T), |x, fl| (fl.0, fl.1, fl.2, fl.3, fl.4, fl.5, x)),
         Shape::Build => return T::get_build(pkg, name),
+        Shape::ListOf3 => got(catch(|| pkg.get_function::<fn(T, T, T) -> List<T>>(name)), |f| Box::new(HList3::<T>(f))),
+        Shape::ListGet => got(catch(|| pkg.get_function::<fn(T, T) -> Option<T>>(name)), |f| Box::new(HListGet::<T>(f))),
         _ => return None,
     })
 }
@@ -1340,7 +1376,7 @@ type S = RotoString;
 
 pub fn catalogue() -> Vec<TermEntry> {
     let mut v: Vec<TermEntry> = Vec::new();
-    for part in [part_ints::part, part_leaves::part, part_vals::part, part_ctors::part, part_option::part, part_list::part, part_result::part, part_verdict::part, part_depth2::part, part_depth3::part] {
+    for part in [part_ints::part, part_leaves::part, part_vals::part, part_ctors::part, part_option::part, part_list::part, part_result::part, part_verdict::part, part_depth2::part, part_depth3::part, part_mixed_align::part] {
         part(&mut v);
     }
     // terms are pairwise distinct: "same term" is index equality
@@ -1452,6 +1488,23 @@ catalogue_part! { part_depth3:
         Option<Result<List<Val<Trk>>, S>> => "Option[Result[List[Trk], String]]",
         Verdict<Option<Result<i8, f32>>, List<Prefix>> => "Verdict[Option[Result[i8, f32]], List[Prefix]]",
         Verdict<Result<u8, S>, Option<Option<f64>>> => "Verdict[Result[u8, String], Option[Option[f64]]]",
+    }
+}
+
+// enums whose biggest variant is less aligned than another one (size 17/18/19 payloads with
+// alignment 1 next to 4- and 8-byte payloads): the size of the enum is not the size of its
+// biggest variant; alone, as list elements (stride) and inside another enum
+catalogue_part! { part_mixed_align:
+    full {}
+    lite {
+        Result<u32, IpAddr> => "Result[u32, IpAddr]", Result<IpAddr, u64> => "Result[IpAddr, u64]",
+        Verdict<u64, IpAddr> => "Verdict[u64, IpAddr]", Verdict<Prefix, u32> => "Verdict[Prefix, u32]",
+        Result<f64, Prefix> => "Result[f64, Prefix]",
+        List<Result<u32, IpAddr>> => "List[Result[u32, IpAddr]]", List<Result<IpAddr, u64>> => "List[Result[IpAddr, u64]]",
+        List<Verdict<u64, Prefix>> => "List[Verdict[u64, Prefix]]", List<Verdict<IpAddr, f64>> => "List[Verdict[IpAddr, f64]]",
+        Option<Result<u32, IpAddr>> => "Option[Result[u32, IpAddr]]",
+        List<Option<Result<u64, IpAddr>>> => "List[Option[Result[u64, IpAddr]]]",
+        Result<Result<u32, IpAddr>, u8> => "Result[Result[u32, IpAddr], u8]",
     }
 }
 
